@@ -16,7 +16,7 @@ DEFAULT = dict(
     tag=st.sampled_from(["@a", "@b", "@c", "@a", "@<a>", "@x<b>y", "@"]),
     ktype=st.sampled_from(KEYWORD_TYPES),
     max_scenarios=3, max_rules=3, max_steps=3, max_examples=3, max_rows=3, max_cols=3, max_tags=3,
-    p_shared_tag=0.12, p_bg=0.6, p_rule_bg=0.5, p_arg=0.4, p_outline=0.45, p_header=0.8,
+    p_shared_tag=0.12, p_shared_node=0.1, p_any_order=0.25, p_bg=0.6, p_rule_bg=0.5, p_arg=0.4, p_outline=0.45, p_header=0.8,
     language=st.sampled_from(["en", "fr", "en-pirate"]),
     uri=st.sampled_from(["u.feature", "dir/x y.feature", "", "./features/a.feature", "../up.feature", "/abs/path.feature", "C:\\dir\\w.feature", "file:///x.feature",
                          " spaced .feature ", "ünï/ç.feature", "./", "a/./b/../c.feature"]),
@@ -95,12 +95,21 @@ def st_ast(draw, **over):
             hdr = [draw(cfg["header"]) for _ in range(w)]
             e["tableHeader"] = row(w, hdr)
             e["tableBody"] = [row(w) for _ in range(count(cfg["max_rows"]))]
+            if cfg.get("p_shared_node") and e["tableBody"] and prob(cfg["p_shared_node"]):
+                # "run this example twice": the same row node listed again
+                e["tableBody"].insert(count(len(e["tableBody"])), e["tableBody"][count(len(e["tableBody"]) - 1)])
         e["tags"] = fix_tags(tags())
         e["id"] = gid()
         return e
 
+    seen_steps = []
+
     def scenario():
         steps = [step() for _ in range(count(cfg["max_steps"]))]
+        if cfg.get("p_shared_node") and seen_steps and prob(cfg["p_shared_node"]):
+            # a step node of an earlier place spliced in again (shared steps of templated / merged ASTs): an equal element, same id
+            steps.insert(count(len(steps)), dict(seen_steps[count(len(seen_steps) - 1)]))
+        seen_steps.extend(steps)
         exs = [examples() for _ in range(count(cfg["max_examples"], 1))] if prob(cfg["p_outline"]) else []
         ts = fix_tags(tags())
         return {"scenario": {"id": gid(), "tags": ts, "location": dict(LOC),
@@ -115,8 +124,11 @@ def st_ast(draw, **over):
 
     doc = {"comments": [], "uri": draw(cfg["uri"])}
     if draw(st.integers(0, 30)) != 0:
-        ch = background(cfg["p_bg"]) + [scenario() for _ in range(count(cfg["max_scenarios"]))] + \
-            [rule() for _ in range(count(cfg["max_rules"]))]
+        rest = [scenario() for _ in range(count(cfg["max_scenarios"]))] + [rule() for _ in range(count(cfg["max_rules"]))]
+        if cfg.get("p_any_order") and len(rest) > 1 and prob(cfg["p_any_order"]):
+            # merged / re-ordered documents: scenarios and rules in any arrangement (the parser itself puts scenarios first)
+            rest = draw(st.permutations(rest))
+        ch = background(cfg["p_bg"]) + list(rest)
         doc["feature"] = {"tags": fix_tags(tags()), "location": dict(LOC), "language": draw(cfg["language"]),
                           "keyword": "Feature", "name": "f", "description": "", "children": ch}
     return {"doc": doc, "next_id": gid.n}
